@@ -21,11 +21,16 @@ pub fn run_sat(case: &Value, _seed: u64) -> Outcome {
     let expected = case["s"].as_bool().unwrap_or(false);
     // chains 0, 1: two version chains, one spelling per rank; chains 2, 3: chain 0 with the INSTALLED resp. the REQUIRED
     // version spelled with an explicit epoch 0 ("0:1.0" and "1.0" are the same Debian version, not the same text)
-    for chain_id in 0..4 {
+    // chain 4: versions whose order is not the order of their texts ("1.10" after "1.9", "1.0.0" after "1.0", a
+    // revision after none) - the chain is used only if debversion itself orders it ascending
+    const CHAIN4: [&str; 6] = ["0.9z", "1.0", "1.0.0", "1.9", "1.10", "1.10-0.1"];
+    let chain4_ok = CHAIN4.windows(2).all(|w| w[0].parse::<Version>().ok() < w[1].parse::<Version>().ok());
+    for chain_id in 0..5 {
+        if chain_id == 4 && !chain4_ok { o.d("chain4_not_ascending", "", String::new()); continue; }
         let chain = if chain_id >= 2 { 0 } else { chain_id };
         // (chain 3: q's name extends p's name - a lookup must compare whole names)
         let names: HashMap<&str, &str> = if chain_id == 3 { [("p", "libfoo"), ("q", "libfoo-dev")].into_iter().collect() } else { [("p", if chain == 0 { "libfoo2.0-dev" } else { "g++" }), ("q", if chain == 0 { "bar" } else { "x~y" })].into_iter().collect() };
-        let ver0 = |rank: u64| -> String { let v = VERS[chain][rank as usize]; if chain == 1 && rank >= 3 { format!("1:{}", v) } else { v.to_string() } };
+        let ver0 = |rank: u64| -> String { if chain_id == 4 { return CHAIN4[rank as usize].to_string(); } let v = VERS[chain][rank as usize]; if chain == 1 && rank >= 3 { format!("1:{}", v) } else { v.to_string() } };
         let ver = |rank: u64| -> String { if chain_id == 3 { format!("0:{}", ver0(rank)) } else { ver0(rank) } };
         let ver_inst = |rank: u64| -> String { if chain_id == 2 { format!("0:{}", ver0(rank)) } else { ver0(rank) } };
         // text of the field
@@ -39,6 +44,8 @@ pub fn run_sat(case: &Value, _seed: u64) -> Outcome {
             let r = r.as_u64().unwrap();
             if r != 0 { installed.insert(names[p.as_str()].to_string(), ver_inst(r).parse().unwrap()); }
         }
+        // (odd chains: the installed set also holds packages the field does not mention)
+        if chain_id % 2 == 1 { installed.insert("zzz-unrelated".to_string(), "9".parse().unwrap()); installed.insert("a".to_string(), "0.1".parse().unwrap()); }
         let feats = vec![format!("chain{}", chain_id)];
         let by_map = |n: &str| installed.lookup_version(n).map(|c| c.into_owned());
         let by_closure = |n: &str| installed.get(n).cloned();
